@@ -66,6 +66,7 @@ HARNESSES = [  # (fn name, props tags, kit call, needs reserved-slot API)
  ("poll_next",                             "C06 C07 C04",      "kit::uni_poll_next::<Ch, $n, $m>()", False),
  ("suspended_async_send_holds_nothing",    "C20",              "kit::uni_suspended_async_send_holds_nothing::<Ch, $n, $m>()", False),
  ("suspended_async_send_blocks_nobody",    "C20 spin=violation", "kit::uni_suspended_async_send_blocks_nobody::<Ch, $n, $m>()", False),
+ ("resumed_async_send_wakes",              "C04 C20",          "kit::uni_resumed_async_send_wakes::<Ch, $n, $m>()", False),
  ("reserved_slot",                         "C08",              "kit::uni_reserved_slot::<Ch, $n, $m>()", True),
  ("stream_ids_recycle",                    "C10",              "kit::uni_stream_ids_recycle::<Ch, $n, $m>()", False),
 ]
@@ -85,9 +86,11 @@ def gen(name, g):
     for fn, props, call, needs_reserved in HARNESSES:
         if needs_reserved and not g["reserved"]:
             continue
+        if fn == "resumed_async_send_wakes" and name == "uni_movable_full_sync":
+            continue     # the consumer cannot even run while that channel's send is suspended (queue-wide lock held: the recorded C20 finding)
         stub = "\n        #[kani::stub(crate::streams_manager::StreamsManagerBase::sync_vacant_and_used_streams, sm::sync_model)]" if fn == "stream_ids_recycle" else ""
         if "zero_copy" in name and fn not in ("send_wakes_parked_stream", "send_with_wakes_parked_stream", "send_with_async_wakes_parked_stream",
-                                              "try_send_reserved_wakes_parked_stream", "suspended_async_send_holds_nothing", "suspended_async_send_blocks_nobody"):
+                                              "try_send_reserved_wakes_parked_stream", "suspended_async_send_holds_nothing", "suspended_async_send_blocks_nobody", "resumed_async_send_wakes"):
             props += " tier=thorough"
         hs.append(f"        // @props {props}\n        #[kani::proof] #[kani::unwind($unw)] #[kani::stub(std::hint::spin_loop, noop)]{stub}\n        fn {fn}() {{ {call} }}")
     return f"""// GENERATED by /verif/kani/gen/gen_uni.py -- do not edit by hand.
